@@ -5,6 +5,7 @@ CONSTANTS
   Conts <- cConts
   MaxList = 3
   MaxNodes = 6
+  PairNodes = 0
   PathNames = {"a", "b", "z"}
   NewNames = {"a", "b", "c"}
   MaxPath = 3
